@@ -119,6 +119,8 @@ func c04Base() []vec {
 				sc, "\x01" + sc, " " + sc, "\x7f" + sc, sc[:2] + "\x00" + sc[2:], sc[:3] + "\n" + sc[3:],
 				fmt.Sprintf("&#%d;", sc[0]) + sc[1:], fmt.Sprintf("&#x%x;", sc[0]) + sc[1:], fmt.Sprintf("&#X%X;", sc[0]&^0x20) + sc[1:],
 				sc[:1] + fmt.Sprintf("&#%d;", sc[1]) + sc[2:], sc[:1] + fmt.Sprintf("&#0000%d;", sc[1]) + sc[2:],
+				// the ignorable bytes (LF, NUL) written as character references inside the scheme
+				sc[:2] + "&#10;" + sc[2:], sc[:2] + "&#x0A;" + sc[2:], sc[:3] + "&#0;" + sc[3:], sc[:2] + "&#10" + sc[2:],
 			}
 			for _, o := range obf {
 				addAttr(a, o+"alert(1)", "url-attr")
@@ -235,7 +237,7 @@ func init() {
 		QuickS:    60,
 		ThoroughS: 600,
 		Rule: "complete product of the calibrated vector grammar: (every shipped + pinned-baseline black tag x 7 endings; every shipped + baseline event/black/style attribute x 4 quotings x {bare, bare+'>', element form with 9 separators, spaced '=', after another attribute}; " +
-			"every URL attribute x 4 schemes x 11 scheme obfuscations; indirect attribute names; doctype/entity/import/xml/IE-conditional/back-tick markup) x (14 breakout prefixes for element forms | 13 attribute-context prefixes for bare attributes) " +
+			"every URL attribute x 4 schemes x 15 scheme obfuscations; indirect attribute names; doctype/entity/import/xml/IE-conditional/back-tick markup) x (14 breakout prefixes for element forms | 13 attribute-context prefixes for bare attributes) " +
 			"x {lower, UPPER, alternating, every single-letter flip of the name, NUL at every interior name position, NUL runs of 2/8/40 in the middle of the name, one NUL in every gap}; every member must be reported by IsXSS; all members are distinct and non-trivial",
 		Assumptions: []string{"the grammar is fixed in c04.go (calibrated once on the repaired pinned tree); list entries are read from the current tables and from the pinned baseline"},
 		Setup: func(w *fw.W) error {
